@@ -177,13 +177,15 @@ def ks_op(rng, n, p=0.3):
 
 
 # ---- long inputs: one call of several hundred blocks (length counters crossing 2^8 / 2^9; thorough: 2^16) ----
-LONG_N = [63, 64, 65, 127, 128, 129, 255, 256, 257, 300, 511, 512, 513]
+LONG_N = [63, 64, 65, 96, 100, 120, 127, 128, 129, 192, 200, 240, 250, 255, 256, 257, 300, 320, 384, 400, 480, 500, 511, 512, 513, 1000]
 LONG_N_THOROUGH = [1023, 1025, 4097, 65537]
 
 
 def long_n(rng, thorough=False):
     if thorough and rng.random() < 0.3:
         return rng.choice(LONG_N_THOROUGH)
+    if rng.random() < 0.25:
+        return rng.randrange(130, 1100)
     return rng.choice(LONG_N)
 
 
